@@ -54,6 +54,11 @@ CHECKS = {
    "Three full products are sent as raw request bytes through the real proxy service to a recording upstream on loopback: every path of the alphabet x query x every rewrite configuration x setting; methods x body sizes; pipeline headers against every subset/casing/repetition of same-named client headers with all subsets of client-sent forwarded headers from trusted and untrusted peers; the received request line, headers and body are compared with a reference rewrite (strip then add on the escaped path, escapes byte-identical, no double encoding, query multiset minus removed names, one field per pipeline header, forwarded headers regenerated).",
    "With allow_encoded_slashes=on only the decoded path and absence of double encoding are compared; parameter order and semicolon queries are not judged.",
    "DESIGN.md 4 C15"),
+ "C18": ("model_checking", "bfs",
+   "explicit-state breadth-first search over source-event / fetch-outcome histories per provider, every history executed on the real provider (real parser, processor, factory, repository), state fingerprint incl. provider-private remembered hashes; convergence and exactly-once oracle in every quiescent state",
+   "For file_system (inotify-faithful event sequences incl. duplicated and reordered delivery), http_endpoint (11-13 fetch outcomes per poll on two endpoints), cloud_blob (real ruleSetEndpoint over a scripted in-process gocloud driver with list/attribute/read faults) and kubernetes (informer callbacks incl. resync, tombstones, status-client faults) all histories up to depth 4-5 (quick) / 5-6 (thorough) are replayed on fresh real providers; at every quiescent state the active rule sets must equal the latest valid content of the existing sources and the processor log must show every change applied exactly once; panics in provider code are violations.",
+   "The fsnotify/gocron/informer machinery is replaced by an environment model of the events it delivers (documented in the evidence assumptions); 5xx from an HTTP endpoint may preserve or remove (don't-care).",
+   "DESIGN.md 4 C18"),
 }
 
 NOT_YET = {
